@@ -281,6 +281,11 @@ def _sec_minor_py(out):
     # is the considered-variant collection put into a canonical order before the model is built?
     srt = [n for n in ast.walk(smi) if isinstance(n, ast.Assign) and src(n.targets[0]) == "mutations" and src(n.value).startswith("sorted(")]
     out["MINOR_MUTATIONS_SORTED"] = len(srt) >= 1
+    # are the pooled candidate alleles of estimate_minor put into a canonical order (independent of the order of the
+    # major solutions they were pooled from) before they reach the model?
+    csrt = [n for n in ast.walk(emf) if isinstance(n, ast.Assign) and src(n.targets[0]) == "alleles"
+            and (src(n.value).startswith("natsorted(set(") or src(n.value).startswith("sorted(set("))]
+    out["MINOR_CANDIDATES_SORTED"] = len(csrt) >= 1
     # SolvedAllele.mutations(): copy of the catalogue's core set, or alias?
     sol = parse("aldy/solutions.py")
     acc = func(sol, "SolvedAllele", "mutations")
@@ -444,6 +449,7 @@ def emit(c) -> str:
     A(f"def NAME_ORDER_BY_REFSEQ : Bool := {'true' if c['NAME_ORDER_BY_REFSEQ'] else 'false'}")
     A(f"def LOADER_CHECKS_CONTIGUITY : Bool := {'true' if c['LOADER_CHECKS_CONTIGUITY'] else 'false'}")
     A(f"def MINOR_MUTATIONS_SORTED : Bool := {'true' if c['MINOR_MUTATIONS_SORTED'] else 'false'}")
+    A(f"def MINOR_CANDIDATES_SORTED : Bool := {'true' if c['MINOR_CANDIDATES_SORTED'] else 'false'}")
     A(f"def MUTATIONS_ACCESSOR_COPIES : Bool := {'true' if c['MUTATIONS_ACCESSOR_COPIES'] else 'false'}")
     A("def MINOR_FILTER_DEPTH_OPS : List String := [" + ", ".join(lean_str(x) for x in c["MINOR_FILTER_DEPTH_OPS"]) + "]")
     A(f"def CN_PCE_VAR : String := {lean_str(c['CN_PCE_VAR'])}")
